@@ -299,7 +299,16 @@ func downloadBundleDescriptor(store storage.Store, repo, key string, settings Se
 	}
 
 	if settings.withMinimalBundle {
-		// in this configuration, don't fetch the bundle descriptor: we are only interested about the key
+		// in this configuration, don't fetch the bundle descriptor: we are only interested about the key.
+		// Still, a bundle exists only once its descriptor has been written: leftovers of
+		// interrupted uploads (file lists without descriptor) are not bundles.
+		has, erh := store.Has(context.Background(), model.GetArchivePathToBundle(repo, apc.BundleID))
+		if erh != nil {
+			return model.BundleDescriptor{}, erh
+		}
+		if !has {
+			return model.BundleDescriptor{}, storagestatus.ErrNotExists
+		}
 		return model.BundleDescriptor{
 			ID: apc.BundleID,
 		}, nil
